@@ -704,7 +704,7 @@ func (wd *world) audit(where string) error {
 			change = change.Add(o.Value)
 		}
 		if !sum.Equals(soSum.Add(change)) {
-			return fmt.Errorf("%s: FundTransaction(%v, false): Σ inputs %v != amount + change %v", where, soSum, sum, change)
+			return fmt.Errorf("%s: FundTransaction(%v, false): Σ inputs %v != amount + change (change %v)", where, soSum, sum, change)
 		}
 	}
 	if overErr == nil {
@@ -1043,6 +1043,7 @@ func (wd *world) opFund(op Op, step int) error {
 		fee = amount.Div64(1000)
 		payee = amount.Sub(fee)
 	}
+	tB := time.Now() // the before/after comparison spans [tB, t2]
 	before, _, err := wd.spendable()
 	if err != nil {
 		return fmt.Errorf("%s: %w", where, err)
@@ -1144,7 +1145,7 @@ func (wd *world) opFund(op Op, step int) error {
 		if err != nil {
 			return fmt.Errorf("%s: %w", where, err)
 		}
-		if t2 := time.Now(); !wd.anyUndecidable(before, after, t0, t2) {
+		if t2 := time.Now(); !wd.anyUndecidable(before, after, tB, t2) {
 			if d := diffSets(after, before, v.snap, wd, t0, t2); d != "" {
 				return fmt.Errorf("%s: the call failed (%v) but SpendableOutputs changed: %s", where, callErr, d)
 			}
@@ -1517,6 +1518,7 @@ func (wd *world) opRedistribute(op Op, step int) error {
 		feePerByte = wd.w.RecommendedFee()
 	}
 	where := fmt.Sprintf("step %d Redistribute(%d, %v, %v)", step, n, amount, feePerByte)
+	tB := time.Now() // the before/after comparison spans [tB, t2]
 	before, _, err := wd.spendable()
 	if err != nil {
 		return fmt.Errorf("%s: %w", where, err)
@@ -1538,7 +1540,7 @@ func (wd *world) opRedistribute(op Op, step int) error {
 		if err != nil {
 			return fmt.Errorf("%s: %w", where, err)
 		}
-		if t2 := time.Now(); !wd.anyUndecidable(before, after, t0, t2) {
+		if t2 := time.Now(); !wd.anyUndecidable(before, after, tB, t2) {
 			if d := diffSets(after, before, v.snap, wd, t0, t2); d != "" {
 				return fmt.Errorf("%s: the call produced nothing (err=%v) but SpendableOutputs changed: %s", where, callErr, d)
 			}
@@ -1617,6 +1619,7 @@ func (wd *world) opSplit(op Op, step int) error {
 		minAmount = oneH
 	}
 	where := fmt.Sprintf("step %d SplitUTXO(%d, %v)", step, n, minAmount)
+	tB := time.Now() // the before/after comparison spans [tB, t2]
 	before, _, err := wd.spendable()
 	if err != nil {
 		return fmt.Errorf("%s: %w", where, err)
@@ -1642,7 +1645,7 @@ func (wd *world) opSplit(op Op, step int) error {
 		if err != nil {
 			return fmt.Errorf("%s: %w", where, err)
 		}
-		if t2 := time.Now(); !wd.anyUndecidable(before, after, t0, t2) {
+		if t2 := time.Now(); !wd.anyUndecidable(before, after, tB, t2) {
 			if d := diffSets(after, before, snap, wd, t0, t2); d != "" {
 				return fmt.Errorf("%s: the call produced nothing (err=%v) but SpendableOutputs changed: %s", where, callErr, d)
 			}
@@ -1792,7 +1795,7 @@ func runC07(c C07Case, cs *kit.CaseStats) error {
 }
 
 var c07Prop = kit.Prop[C07Case]{
-	ID: "C07",
+	ID:   "C07",
 	Rule: "stateful machine over one SingleAddressWallet + chain.Manager + surviving store: drawn wallet options (defrag threshold 0..40, max inputs for defrag 1..100, max defrag outputs 0..20, reservation 50 ms / 3 h) × four hardfork regimes × ≤ 25 ops (mine to wallet/other, multi-output payments, FundTransaction/FundV2Transaction with amounts {0, 1 H, fraction, exactly spendable, +1, with unconfirmed, value of one output}, Redistribute, SplitUTXO, ReleaseInputs, sign+submit three ways, reorg 1..4 deep, wallet/node restart, sleep past a 50 ms reservation). After every call the per-input oracle (owned, in the store's unspent set, mature, not pool-spent, not reserved in the harness' own reservation model, not repeated), conservation, error ⇒ SpendableOutputs unchanged, pool acceptance of the signed result; after every step Balance().Spendable = Σ SpendableOutputs() = model = largest amount FundTransaction(…, false) funds (exact amount funds and is released, one hasting more fails with ErrNotEnoughFunds). Non-trivial = some audited state had simultaneously a reserved, a pool-spent, an immature and an unconfirmed output, or a non-default defrag configuration whose defrag branch ran; distinct by hash of the case.",
 	Assumptions: []string{
 		"the wallet is fed every chain update before the next call (it does not subscribe itself; the harness plays the integrator exactly as the repository's syncDB test helper does)",
